@@ -33,7 +33,6 @@ MERGE_BUFFER_ROWS = 8192
 FANIN = 8
 JT = {1: "inner", 2: "left", 3: "right", 4: "full", 5: "semi", 6: "anti"}
 
-F_NULLS = "C08/spill-merge-ignores-nulls-first-last"
 F_TYPE = "C08/spill-merge-unsupported-key-type"
 F_BIGRUN = "C08/spill-merge-8192-rows-or-more"
 F_JOINKEY = "C08/spill-join-unsupported-key-type"
@@ -57,7 +56,7 @@ def tlc_jobs(tier):
 
 NEGATIVE = [("ExternalSort", "ExternalSort_asbuilt_cex.cfg", "AtDone", "merge comparator as built (NULLS FIRST/LAST ignored) breaks the sort contract"),
             ("SpillAgg", "SpillAgg_mut_doublecount.cfg", "Conserves", "a spilled partition that is not cleared is counted twice"),
-            ("SpillJoin", "SpillJoin_mut_silentouter.cfg", "AtDone", "a non-inner join on the spill path loses the NULL-extended rows")]
+            ("SpillJoin", "SpillJoin_mut_silentouter.cfg", "AtDone|NonInnerNeverSpills", "a non-inner join on the spill path loses the NULL-extended rows")]
 REACH = [("SpillAgg", "SpillAgg_cover_refill.cfg", "CoverRefill", "a partition is evicted and refilled (spill file + in-memory remainder aggregated together)"),
          ("SpillJoin", "SpillJoin_cover_answer.cfg", "CoverAnswerAfterSpill", "a spilled build partition is re-read and probed with its spilled probe rows"),
          ("SpillJoin", "SpillJoin_cover_missing.cfg", "CoverMissingFile", "a partition evicted while empty has no build file (explicit error, as built)"),
@@ -107,7 +106,7 @@ def negatives(ctx):
         ctx.tlc_stats(res, f"{cfg}: expected {'violation of ' + inv if inv else 'no violation'} — {label}")
         if inv is None:
             tlc_must_pass(res, cfg)
-        elif res.violated != inv:
+        elif res.violated not in inv.split("|"):
             vlib.log(f"[C08] {cfg}: expected {inv} to be refuted, got violated={res.violated} error={str(res.error)[:200]}")
             bad += 1
     if bad:
@@ -319,18 +318,16 @@ def spec_cmp_key(spec):
 
 
 def asbuilt_cmp(a, b, spec, ktypes):
-    """compare_array_values + reverse for DESC, as streaming_k_way_merge compares two rows"""
+    """streaming_k_way_merge's row comparison as built (since /repo 8429288): NULLs are placed per NULLS FIRST/LAST;
+    two values go through compare_array_values (Equal for a type it does not know), reversed for DESC"""
     for x, y, it, kt in zip(a, b, spec, ktypes):
         if x == NULL and y == NULL:
-            c = 0
-        elif x == NULL:
-            c = 1
-        elif y == NULL:
-            c = -1
-        elif kt not in MERGE_TYPES:
-            c = 0
-        else:
-            c = (x > y) - (x < y)
+            continue
+        if x == NULL:
+            return -1 if it["nf"] else 1
+        if y == NULL:
+            return 1 if it["nf"] else -1
+        c = 0 if kt not in MERGE_TYPES else (x > y) - (x < y)
         if it["desc"]:
             c = -c
         if c:
@@ -455,9 +452,6 @@ def classify_sort(h, m, r, why):
             if pred is not None and r["rows"]["keys"] == pred:
                 if any(kt not in MERGE_TYPES for kt in h["ktypes"]):
                     return f"known:{F_TYPE}:{why}"
-                for i, it in enumerate(h["spec"]):
-                    if it["desc"] != it["nf"] and has_null_and_value([rr[i] for rr in rows]):
-                        return f"known:{F_NULLS}:{why}"
     return f"violation:{why}"
 
 
